@@ -22,6 +22,7 @@ type c05Case struct {
 	Kind  string    `json:"reader_kind"`
 	Chunk int       `json:"chunk"`
 	Delay int       `json:"delay"`
+	Stmt  bool      `json:"stmt_yields,omitempty"`
 }
 
 type c05 struct{}
@@ -60,12 +61,14 @@ func (c05) Gen(t *Tape, tier string, run int) interface{} {
 		}
 		c.Recs = append(c.Recs, genRec(t, len(c.Hdr.Refs), size, i))
 	}
+	c.Stmt = !big && t.Chance("work", 1, 4)
 	return c
 }
 
 func (c05) Exec(x *Exec, ci interface{}) *Verdict {
 	c := ci.(*c05Case)
 	vd := &Verdict{}
+	x.StmtAll = c.Stmt
 	file := &File{X: x, Name: "f"}
 	var werr error
 	var wstage string
